@@ -41,3 +41,4 @@ INVARIANTS
   C19_Canonical
   C19_LeafOrderTotal
   C09_RetryDurable
+  C15_StageComplete
